@@ -586,6 +586,7 @@ type gen struct {
 	t       *tr.W
 	crashes bool
 	faults  bool
+	asked   []int // block ids recently looked up by hash
 }
 
 func (g *gen) emit(op, obs string) {
@@ -637,8 +638,11 @@ func (g *gen) mutate() bool {
 		w.faultKind = kinds[g.r.Intn(len(kinds))]
 		w.faultStep = g.r.Intn(3)
 		w.faultArg = []int{1, 31, 32, 79, 80, 81, 100, 160}[g.r.Intn(8)]
-		if w.faultKind == "syncerr" {
-			// a sync error only matters together with an index failure
+		if w.faultKind == "syncerr" && g.r.Intn(2) == 0 {
+			// a failing fsync on its own: the stores only sync while repairing a failed index
+			// transaction, so an operation must not even notice it (every Sync of the op fails)
+			g.t.Hit("store.fault.syncerr-alone")
+		} else if w.faultKind == "syncerr" {
 			w.faultKind = "dberr"
 		}
 		armed = fmt.Sprintf("fault %s %d %d", w.faultKind, w.faultStep, w.faultArg)
@@ -846,6 +850,7 @@ func (g *gen) reads() {
 			} else {
 				g.emit(fmt.Sprintf("xb %d", id), strconv.Itoa(int(height)))
 			}
+			g.remember(id)
 		case 2:
 			loc, err := w.bs.LatestBlockLocator()
 			if err != nil {
@@ -877,14 +882,55 @@ func (g *gen) reads() {
 			g.emit(fmt.Sprintf("anc %d %d", n, id), fmt.Sprintf("%d [%s]", start, strings.Join(ss, " ")))
 		case 4:
 			id := g.r.Intn(len(w.bhdr))
+			if g.r.Intn(2) == 0 {
+				// a block that is stored right now (and may have a filter header)
+				if x := w.blockAt(uint32(g.r.Intn(int(tipH) + 1))); x >= 0 {
+					id = x
+				}
+			}
+			g.askXF(id)
+			g.remember(id)
+		}
+	}
+	// ask again what was asked by hash before: an answer may only change because the stores changed
+	// (a lookup that is remembered inside the store would keep answering for a block that was rolled back
+	// or replaced)
+	for _, id := range g.asked {
+		if g.r.Intn(2) == 0 {
+			g.askXF(id)
+		} else {
 			hash := w.bhdr[id].BlockHash()
-			fh, err := w.fs.FetchHeader(&hash)
+			_, height, err := w.bs.FetchHeader(&hash)
 			if err != nil {
-				g.emit(fmt.Sprintf("xf %d", id), "nf")
+				g.emit(fmt.Sprintf("xb %d", id), "nf")
 			} else {
-				g.emit(fmt.Sprintf("xf %d", id), w.fname(*fh))
+				g.emit(fmt.Sprintf("xb %d", id), strconv.Itoa(int(height)))
 			}
 		}
+	}
+}
+
+func (g *gen) askXF(id int) {
+	w := g.w
+	hash := w.bhdr[id].BlockHash()
+	fh, err := w.fs.FetchHeader(&hash)
+	if err != nil {
+		g.emit(fmt.Sprintf("xf %d", id), "nf")
+	} else {
+		g.emit(fmt.Sprintf("xf %d", id), w.fname(*fh))
+	}
+}
+
+// remember keeps the last few block ids that were looked up by hash.
+func (g *gen) remember(id int) {
+	for _, x := range g.asked {
+		if x == id {
+			return
+		}
+	}
+	g.asked = append(g.asked, id)
+	if len(g.asked) > 6 {
+		g.asked = g.asked[1:]
 	}
 }
 
